@@ -73,3 +73,41 @@ func UseCoder(w io.Writer, p []byte) {
 	}
 	c.fastPath(p)
 }
+
+// EncodeHdrBad: FLOWS-HEADER control — depth shapes the coded bytes but the frame header carries a
+// constant precision; width is declared (guarded twin).
+func EncodeHdrBad(pixels []byte, width, depth int) ([]byte, error) {
+	var buf bytes.Buffer
+	w := standard.NewWriter(&buf)
+	if err := w.WriteMarker(standard.MarkerSOI); err != nil {
+		return nil, err
+	}
+	if err := writeHdr(w, width); err != nil {
+		return nil, err
+	}
+	body := hdrBody(pixels, depth)
+	if _, err := w.Write(body); err != nil {
+		return nil, err
+	}
+	if err := w.WriteMarker(standard.MarkerEOI); err != nil {
+		return nil, err
+	}
+	return buf.Bytes(), nil
+}
+
+func writeHdr(w *standard.Writer, width int) error {
+	sof := make([]byte, 3)
+	sof[0] = 8
+	sof[1] = byte(width >> 8)
+	sof[2] = byte(width)
+	return w.WriteSegment(standard.MarkerSOF3, sof)
+}
+
+func hdrBody(pixels []byte, depth int) []byte {
+	out := make([]byte, 0, len(pixels))
+	mask := byte(1<<uint(depth&7) - 1)
+	for _, p := range pixels {
+		out = append(out, p&mask)
+	}
+	return out
+}
